@@ -22,6 +22,8 @@ package cli
 //@ ghost $progErr error
 //@ ghost $truncating bool
 //@ ghost $json string
+//@ ghost $fileText string
+//@ ghost $outBeforeJson string
 
 //@ func cli.printError [C01,C14]
 //@   updates nothing
@@ -29,7 +31,7 @@ package cli
 // The command line (C14, C01): always returns 0 or 1; any error of the interpreter gives 1; -o is
 // refused with several inputs; -o FILE writes, into a truncated file, exactly the string that -o -
 // prints; selectors and files are handed to the interpreter in the order given.
-//@ func cli.Run [C01,C14]
+//@ func cli.Run [C01,C03,C04,C14]
 //@   requires !$faulted
 //@   updates $faulted, $out
 //@   init $ranProgram = false
@@ -38,9 +40,16 @@ package cli
 //@   after EvalProgram: $progErr = ret1
 //@   after Evaluator.GetRootJson: $json = ret0
 //@   after os.Create: $truncating = true
+//@   init $fileText = ""
+//@   after (*os.File).WriteString: $fileText = $fileText + arg1
+//@   after Evaluator.GetRootJson: $outBeforeJson = $out
 //@   ensures[C01,C14] exit-status-is-0-or-1: exitCode == 0 || exitCode == 1
 //@   ensures[C14] interpreter-error-means-status-1: $ranProgram && $progErr != nil ==> exitCode == 1
 //@   assert[C14] selectors-in-the-order-given-no-fuzzing: arg2 == rValues && !arg4 && len(arg1) == len(filePaths) @ EvalProgram
 //@   assert[C14] json-only-for-a-single-input: len(filePaths) <= 1 @ Evaluator.GetRootJson
 //@   assert[C14] file-gets-exactly-the-serialisation-and-is-truncated: arg1 == $json && $truncating @ (*os.File).WriteString
+//@   exit[C04,C14] o-file-holds-exactly-the-serialisation: $ranProgram && exitCode == 0 && len(*outfile) > 0 && *outfile != "-" ==> $truncating && $fileText == $json && $out == $outBeforeJson
+//@   exit[C04,C14] o-dash-prints-the-serialisation-after-the-program-output: $ranProgram && exitCode == 0 && *outfile == "-" ==> $out == $outBeforeJson + $json
+//@   assert[C03,C14] inputs-are-handed-over-as-open-files-not-read-here: forall k int :: 0 <= k && k < len(arg1) ==> istype(arg1[k].Reader, "*os.File") @ EvalProgram
+//@   loop 0 invariant[C03,C14] open-files-so-far: forall k int :: 0 <= k && k < len(inputFiles) ==> istype(inputFiles[k].Reader, "*os.File")
 //@   loop 0 invariant files-in-order: !$faulted && len(inputFiles) == rangeindex + 1 && !$ranProgram
